@@ -8,6 +8,8 @@
 //!
 //! exit 0: property held on everything explored; 1: VIOLATION printed; 2: harness error.
 
+#![recursion_limit = "512"]
+
 mod gens;
 mod oracle;
 mod rng;
@@ -296,6 +298,7 @@ fn make_mode(batch: Batch, seed: u64, gen: Gen, i: u64) -> world::Mode {
         Batch::Random => sim::random_mode(seed, gen, i),
         Batch::Cover => world::Mode::Random {
             rng: rng::Rng::new(0),
+            aux: rng::Rng::new(1),
             profile: world::Profile::cover(i as u32),
         },
     }
@@ -669,7 +672,23 @@ fn cmd_check(a: &Args) -> i32 {
     let cover_runs = if a.opts.get("cover").map(|s| s.as_str()) == Some("off") { 0 } else { world::zigzag_family_size(n_dir) as u64 };
     let cvr = run_batch_of(&ctx, Batch::Cover, Gen::Layout, seed, cover_runs, threads, 64);
     let lay = run_batch(&ctx, Gen::Layout, seed, layout_runs, threads, stride_layout);
-    let lik = run_batch(&ctx, Gen::Likely, seed, likely_runs, threads.min(likely_runs.max(1)), 1);
+    let mut lik = run_batch(&ctx, Gen::Likely, seed, likely_runs, threads.min(likely_runs.max(1)), 1);
+    // today's generate_likelysubtags meets no nondeterminism behind a seam (one file, no hash
+    // container, no thread): a handful of runs is all there is to explore. The moment it does meet
+    // some (a rewritten generator), it gets a seeded search of its own.
+    let likely_choice_points = lik.stats.read_dir_calls
+        + lik.stats.containers
+        + lik.stats.opens
+        + lik.stats.sched_choice_points
+        + lik.stats.timeouts_offered
+        + lik.stats.cores_asked
+        + lik.stats.clock_reads;
+    let likely_escalated = likely_choice_points > 0 || lik.distinct_logs.len() > 1;
+    if likely_escalated && a.opts.get("likely-runs").is_none() {
+        let n = opt_u64(a, "likely-nd-runs", if tier == "quick" { 3_000 } else { 300_000 });
+        println!("generate_likelysubtags meets nondeterminism behind a seam ({} decision points in {} runs): seeded search over {} runs", likely_choice_points, lik.runs, n);
+        lik = run_batch(&ctx, Gen::Likely, seed, n, threads, (n / 256).max(1));
+    }
     let sim_wall = t_sim.elapsed().as_secs_f64();
     // ---- fidelity cross-check: the real binaries, run for real (no seam), must print what the
     // simulated programs printed and what the tables hold
@@ -897,7 +916,7 @@ fn cmd_check(a: &Args) -> i32 {
             },
             "runs_per_hour": (total_runs as f64 / sim_wall.max(1e-9) * 3600.0) as u64,
             "simulation_wall_s": sim_wall,
-            "simulated_time": "n/a: the simulated programs have no clock, timer, sleep or deadline",
+            "simulated_time": "n/a: the pinned programs have no clock, timer, sleep or deadline; a rewritten generator that reads a clock gets the simulated one (clock_reads below), and a timed wait times out only by simulator decision or when no other thread can run",
             "threads": threads,
             "seam_events": lay.events + lik.events,
             "faults_and_nondeterminism_fired": {
@@ -913,8 +932,21 @@ fn cmd_check(a: &Args) -> i32 {
                 "eintr": sum.eintr,
                 "bytes_read": sum.bytes_read,
                 "reads_that_escaped_to_the_real_fs": sum.fs_escapes,
-                "thread_bodies_run_as_atomic_tasks": sum.thread_spawns,
-                "thread_bodies_deferred_to_join": sum.thread_spawns_deferred,
+                "runs_executed_under_the_thread_scheduler": sum.shuttle_runs,
+                "thread_scheduling_steps": sum.sched_steps,
+                "thread_scheduling_choice_points_with_more_than_one_runnable_task": sum.sched_choice_points,
+                "context_switches": sum.context_switches,
+                "scheduling_deviations_from_the_no_preemption_default": sum.sched_deviations,
+                "max_tasks_in_a_run": sum.max_tasks,
+                "timed_waits_that_could_have_timed_out": sum.timeouts_offered,
+                "timed_waits_timed_out_by_injected_stall": sum.timeouts_fired,
+                "timed_waits_timed_out_naturally_nobody_else_runnable": sum.timeouts_natural,
+                "available_parallelism_queries": sum.cores_asked,
+                "output_stream_short_writes": sum.short_writes,
+                "output_stream_eintr": sum.write_eintr,
+                "clock_reads": sum.clock_reads,
+                "stderr_prints_discarded": sum.stderr_prints,
+                "prints_after_process_exit_discarded": sum.prints_after_exit,
                 "hard_io_faults_in_gating_runs": "0 (deliberately not injected in gating runs: C18 does not say what a generator must do when its input is unreadable, see DESIGN §4.4)",
             },
             "hard_fault_exploration_not_gating": {
@@ -1243,6 +1275,8 @@ fn cmd_show(a: &Args) -> i32 {
 }
 
 fn main() {
+    // shuttle installs a process-wide panic hook at its first execution; ours goes on top of it
+    sim::prime_shuttle();
     sim::install_panic_hook();
     // uninterceptable path queries (Path::exists etc.) then hit the same tree the image was loaded from
     let _ = std::env::set_current_dir(REPO_CRATE);
